@@ -21,6 +21,9 @@ Engine E1 (product-space enumeration).  Alphabet
 
 * EVERY N in 8..180 through the object interface (mem, mem2/approximate): number and values of the
   direction coordinate, e(f) / m0 round trip, validity;
+* adjacency: every ordered pair (A, B), A != B, |A-B| < 0.1, from 9 clusters of 4 quadruples around
+  narrow-peak, marginal and unrealisable centres, with A the last frequency bin of spectrum k and B the
+  first bin of spectrum k+1 of one batch; batch vs. each spectrum alone;
 * call histories: [default calls] ; [a call with a custom solver_config (6 dicts x 3 solution
   methods; thorough: also all ordered pairs) through estimate_directional_distribution] ; [the same
   default calls] => bit-identical results, no exception, module defaults untouched.  Run in a fresh
@@ -53,7 +56,8 @@ RULE = (
     "(grid+180)%360) x N in {8,9,36} x variant; plus the coarse lattice through 4 array shapes x memory layouts "
     "{C, Fortran, strided views} / single elements and through spectrum "
     "objects in 4 layouts (batch vs. singleton, round trip, carried coordinates); plus the object round trip for every "
-    "N in 8..180 (mem, mem2/approximate); plus call histories [default ; custom solver_config call(s) ; default] over "
+    "N in 8..180 (mem, mem2/approximate); plus 108 ordered (last bin of spectrum k, first bin of spectrum k+1) pairs "
+    "of nearby quadruples x variant (batch vs alone); plus call histories [default ; custom solver_config call(s) ; default] over "
     "6 configs x 3 solution methods in a fresh interpreter. A member (variant, N, grid, "
     "quadruple) is non-trivial when the quadruple is not (0,0,0,0) (an anisotropic distribution has to be built); "
     "distinct = distinct (variant, N, grid origin, quadruple); shape / layout re-runs of the same members are "
@@ -72,7 +76,7 @@ REQUIRED_CATEGORIES = [
     "N_8", "N_9", "N_36", "N_180", "newton_converged", "newton_not_converged",
     "vonmises_narrow_le_5deg", "vonmises_isotropic", "vonmises_bimodal",
     "grid_origin_shifted", "grid_order_rolled", "memory_layout_C", "memory_layout_fortran", "memory_layout_strided",
-    "object_fortran_values", "every_N_8..180", "history_custom_config_then_default", "shape_(nf,)", "shape_(nt,nf)", "shape_(nt,nx,nf)", "shape_single_element",
+    "object_fortran_values", "every_N_8..180", "history_custom_config_then_default", "adjacent_last_bin_first_bin_pairs", "shape_(nf,)", "shape_(nt,nf)", "shape_(nt,nx,nf)", "shape_single_element",
     "layout_scalar", "layout_time", "layout_time_lat", "layout_flat",
     "singleton_compared", "roundtrip_checked", "progress_bar_path(points>=10)",
 ]
@@ -388,6 +392,8 @@ def units(tier):
             for b in range(4):
                 us.append({"name": f"alln:{variant}:{b}/4", "kind": "alln", "variant": variant, "Ns": ALL_N[b::4],
                            "cost": 3000})
+        for N in ((36,) if tier == "quick" else (8, 9, 36, 180)):
+            us.append({"name": f"adjacent:{variant}:N{N}", "kind": "adjacent", "variant": variant, "N": N, "cost": 1500})
         for N in (8, 9, 36):
             us.append({"name": f"order:{variant}:N{N}", "kind": "order", "variant": variant, "N": N,
                        "cost": COST[variant] * NCOST[N] * 3645 * 3.5})
@@ -826,6 +832,107 @@ def run_object(unit):
     return r
 
 
+# ---- adjacency family: the last bin of spectrum k next to the first bin of spectrum k+1 -----------
+def adj_members(q):
+    """the centre and three neighbours (c1 shrunk / turned, c2 shifted) - all closer than 0.1 to each other
+    and never leaving |c1| < 1"""
+    c1, c2 = complex(q[0], q[1]), complex(q[2], q[3])
+    rot = lambda a: complex(math.cos(a), math.sin(a))  # noqa: E731
+    out = [(c1, c2), (c1 * 0.97, c2), (c1 * rot(0.03), c2 * 0.97), (c1 * 0.98 * rot(-0.02), c2 + 0.03j)]
+    return [(float(a.real), float(a.imag), float(b.real), float(b.imag)) for a, b in out]
+
+
+def adjacency_alphabet():
+    """clusters of quadruples closer than 0.1 to each other around narrow-peak, marginal and
+    unrealisable centres (where a solver carries huge multipliers)."""
+    centres = []
+    for width, mu in ((3.0, 40.0), (5.0, 200.0), (10.0, 310.0)):
+        kappa = 1.0 / math.radians(width) ** 2
+        r1, r2, t = bessel_ratio(1, kappa), bessel_ratio(2, kappa), math.radians(mu)
+        centres.append((f"vonmises_{width:g}deg", (r1 * math.cos(t), r1 * math.sin(t), r2 * math.cos(2 * t), r2 * math.sin(2 * t))))
+    kappa = 1.0 / math.radians(10.0) ** 2
+    r1, r2 = bessel_ratio(1, kappa), bessel_ratio(2, kappa)
+    c1 = 0.5 * r1 * (complex(math.cos(1.0), math.sin(1.0)) + complex(math.cos(1.0 + 2.0944), math.sin(1.0 + 2.0944)))
+    c2 = 0.5 * r2 * (complex(math.cos(2.0), math.sin(2.0)) + complex(math.cos(2.0 + 4.1888), math.sin(2.0 + 4.1888)))
+    centres.append(("bimodal_10deg", (c1.real, c1.imag, c2.real, c2.imag)))
+    centres += [
+        ("marginal_two_point_masses_a", (0.5, 0.5, 0.0, 0.0)),
+        ("marginal_two_point_masses_b", (0.6, 0.0, -0.28, 0.0)),
+        ("unrealisable_a", (-0.75, -0.5, -1.0, -1.0)),
+        ("unrealisable_b", (0.9, 0.3, 0.2, -0.9)),
+        ("noisy_narrow", (0.95, 0.1, 0.5, 0.6)),
+    ]
+    clusters = []
+    for name, q in centres:
+        members = adj_members(q)
+        for m in members:
+            if not m[0] ** 2 + m[1] ** 2 < 1:
+                raise AssertionError("adjacency member outside the domain")
+        for x in members:
+            for y in members:
+                if x != y and not 0 < math.dist(x, y) < 0.1:
+                    raise AssertionError("adjacency members not within 0.1")
+        clusters.append((name, members))
+    return clusters
+
+
+def run_adjacent(unit):
+    """Every ordered pair (A, B), A != B, of every cluster: A is the LAST frequency bin of spectrum k and
+    B the FIRST bin of spectrum k+1 of one batch (nf = 2, spectrum k = [B_(k-1), A_k]); every spectrum of
+    the batch must get exactly the result it gets alone."""
+    c = Collector()
+    agg = Agg(c)
+    variant, N = unit["variant"], unit["N"]
+    direction = grid(N)
+    keybase = {"variant": variant, "N": N, "grid_origin": "0", "family": "adjacent"}
+    pairs = []
+    for name, members in adjacency_alphabet():
+        for a in members:
+            for b in members:
+                if a != b:
+                    pairs.append((name, a, b))
+    filler = (0.3, -0.2, 0.1, 0.05)
+    firsts = [filler] + [b for _, _, b in pairs]
+    lasts = [a for _, a, _ in pairs] + [filler]
+    Qb = np.array([[f, l] for f, l in zip(firsts, lasts)])  # (npairs+1, 2, 4)
+    try:
+        batch = call(variant, Qb[..., 0], Qb[..., 1], Qb[..., 2], Qb[..., 3], direction)
+    except Exception as exc:  # noqa
+        agg.add(dict(keybase, check="raises", exception=type(exc).__name__),
+                f"{variant} N={N} raises {type(exc).__name__}: {exc} on the adjacency batch", traceback=tb_tail(exc))
+        batch = None
+    if batch is not None and batch.shape != Qb.shape[:2] + (N,):
+        agg.add(dict(keybase, check="shape"), f"{variant}: result shape {batch.shape}")
+        batch = None
+    if batch is not None:
+        flatQ = Qb.reshape(-1, 4)
+        judge(c, agg, variant, flatQ, batch.reshape(-1, N), np.ones(len(flatQ), dtype=bool), N, keybase)
+        for k in range(len(Qb)):
+            try:
+                alone = call(variant, Qb[k, :, 0], Qb[k, :, 1], Qb[k, :, 2], Qb[k, :, 3], direction)
+            except Exception as exc:  # noqa
+                agg.add(dict(keybase, check="raises", exception=type(exc).__name__),
+                        f"{variant} N={N} raises {type(exc).__name__}: {exc} on spectrum {k} alone", traceback=tb_tail(exc))
+                continue
+            c.evaluations += 2
+            eq = same(batch[k], alone) if alone.shape == batch[k].shape else np.zeros(2, dtype=bool)
+            for j in np.nonzero(~eq)[0]:
+                prev = qstr(Qb[k - 1, 1]) if (j == 0 and k > 0) else qstr(Qb[k, 0])
+                agg.add(dict(keybase, check="batch_vs_alone", cluster=pairs[k - 1][0] if (j == 0 and k > 0) else pairs[min(k, len(pairs) - 1)][0]),
+                        f"{variant} N={N}: bin {j} of spectrum {k} {qstr(Qb[k, j])} (preceded in the batch by {prev}) differs from "
+                        f"the result of the spectrum alone: max |dD| = {float(np.nanmax(np.abs(batch[k, j] - alone[j]))):.3g} "
+                        f"(max D {float(np.nanmax(alone[j])):.3g})",
+                        quad=qstr(Qb[k, j]), preceded_by=prev)
+        c.cat("adjacent_last_bin_first_bin_pairs", len(pairs))
+        c.cat("singleton_compared", 2 * len(Qb))
+    c.nontriv(n=len(pairs))
+    c.case({"v": variant, "N": N, "adjacent": len(pairs)})
+    c.sample({"variant": variant, "N": N, "family": "adjacent", "last_bin_of_spectrum_k": list(pairs[0][1]),
+              "first_bin_of_spectrum_k+1": list(pairs[0][2]), "pairs": len(pairs)})
+    agg.flush()
+    return c.result()
+
+
 # ---- history family: calls with a custom solver_config must not change later default calls -------
 DOCUMENTED_NUMERICS = {"atol": 0.01, "max_iter": 100, "max_line_search_depth": 8, "rcond": 1e-6,
                        "use_mem_when_failing_to_converge": True}
@@ -1002,7 +1109,7 @@ def run_alln(unit):
 
 def run_unit(unit):
     return {
-        "lattice": run_lattice, "vonmises": run_vonmises, "origin": run_origin, "order": run_order, "shapes": run_shapes, "alln": run_alln, "history": run_history,
+        "lattice": run_lattice, "vonmises": run_vonmises, "origin": run_origin, "order": run_order, "shapes": run_shapes, "alln": run_alln, "history": run_history, "adjacent": run_adjacent,
         "object": run_object,
     }[unit["kind"]](unit)
 
